@@ -22,7 +22,9 @@ def call_pclevel(no_async, behaviour, nyield, annotated, nested):
 
         async def body(depth):
             try:
-                if not annotated and behaviour != 'nodecl':
+                if behaviour == 'declnone':
+                    await rt.returnType(None)          # declared to return nothing (e.g. Runtime.peek-like logging coroutines): stays pending like any other
+                elif not annotated and behaviour != 'nodecl':
                     await rt.returnType(secint)
                 log.append(('in', rt._pc_level, started[0] - finished[0]))
                 for j in range(nyield):
@@ -36,7 +38,7 @@ def call_pclevel(no_async, behaviour, nyield, annotated, nested):
                         try: await rt.gather(inner)
                         except Exception: pass
                 if behaviour == 'raise': raise KeyError('boom')
-                return secint(7) if behaviour != 'nodecl' else 7
+                return None if behaviour == 'declnone' else (secint(7) if behaviour != 'nodecl' else 7)
             finally:
                 finished[0] += 1
         if annotated:
@@ -88,16 +90,16 @@ def ck_pclevel(args, res, exc):
 
 def in_pclevel(tier):
     for no_async in (True, False):
-        for behaviour in ('return', 'raise', 'nodecl'):
+        for behaviour in ('return', 'raise', 'nodecl', 'declnone'):
             for nyield in (0, 1, 2):
                 for annotated in (False, True):
                     for nested in (False, True):
-                        if annotated and behaviour == 'nodecl': continue
+                        if annotated and behaviour in ('nodecl', 'declnone'): continue
                         if behaviour == 'nodecl' and (nyield or nested): continue      # without a declared type the coroutine must finish at its first step
                         if no_async and nyield: continue           # synchronous mode cannot suspend on an unfinished future
                         yield (no_async, behaviour, nyield, annotated, nested)
 
 
 NATIVE = {'pc_level': Native('pc_level', 'mpyc.asyncoro.mpc_coro/typed_asyncoro/_reconcile/_ProgramCounterWrapper', call_pclevel, ck_pclevel, in_pclevel,
-                             'behaviours {return, raise, no declared type} x yields 0..2 x return annotation x nesting x no_async')}
+                             'behaviours {return, raise, no declared type, declared None} x yields 0..2 x return annotation x nesting x no_async')}
 NATIVE['pc_level'].module = 'contracts.asyncoro_pclevel'
